@@ -1,3 +1,23 @@
-From TM Require Import Base Frame.
-Theorem C18_placeholder : fc_value (fc_new 1) = 1.
-Proof. reflexivity. Qed.
+(* C18 -- concurrent connections are served independently.
+   PARTIAL by nature: the quantifier over interleavings is discharged in the model, where a server is a
+   family of per-connection machines; that the Rust tasks share no state is supported by inspection
+   and by the concurrent exploration of the harness, not by this proof. *)
+From TM Require Import Base Frame Pdu RtuCodec Framed Client Server AcceptProofs.
+
+(* after any schedule (global arrival order of per-connection events) a connection has received
+   exactly its own events in its own order *)
+Theorem C18_projection : forall s c, grun s c = events_of c s.
+Proof. exact grun_projection. Qed.
+(* a step of another connection does not touch this one *)
+Theorem C18_frame : forall g e c, fst e <> c -> gstep g e c = g c.
+Proof. exact step_frame. Qed.
+(* non-interference: two schedules that agree on c's own events give c the same trace (replies on its
+   own connection, in its own request order -- C07), whatever the other connections do *)
+Theorem C18_noninterference : forall p m svc s1 s2 c,
+  events_of c s1 = events_of c s2 -> conn_trace p m svc s1 c = conn_trace p m svc s2 c.
+Proof. exact noninterference. Qed.
+(* one service instance per accepted connection, in accept order *)
+Theorem C18_factory_once : forall evs,
+  forallb (fun x => negb (stops x)) evs = true ->
+  length (fst (serve evs)) = length (filter (fun e => match e with AConn (SetupService _) => true | _ => false end) evs).
+Proof. exact factory_once_per_connection. Qed.
